@@ -337,7 +337,13 @@ func c11InProcess(c *fw.Ctx) {
 				remote := 0
 				var attempted []interface{}
 				ch.OnValueUpdateFromConn(func(net.Conn, *characteristic.Characteristic, interface{}, interface{}) { remote++ })
+				inside := false
 				ch.OnValueUpdate(func(_ *characteristic.Characteristic, nv, _ interface{}) {
+					if inside { // (only code that lets the remote writes through gets here again: do not recurse without end)
+						return
+					}
+					inside = true
+					defer func() { inside = false }()
 					for _, v := range vals {
 						if len(v.Label) <= 3 || v.Label == "true" || v.Label == "str:abc" {
 							attempted = append(attempted, v.V)
